@@ -339,7 +339,7 @@ static inline void K_sptr_reset(T** p)
   __CPROVER_requires(self == il || self->begin_allocated_memory == NULL || il->begin_allocated_memory == NULL         \
                      || !__CPROVER_same_object(self->begin_allocated_memory, il->begin_allocated_memory))              \
   __CPROVER_requires(il->length == 0 || (VWO_IN_RANGE(il, g_i) && g_p == &VWO_ELEM(il, g_i)))                          \
-  __CPROVER_assigns(VWO_FIELDS(self); self->length > 0 || 1 : __CPROVER_object_whole(self->begin_allocated_memory))    \
+  __CPROVER_assigns(VWO_FIELDS(self); self->begin_allocated_memory != NULL : __CPROVER_object_whole(self->begin_allocated_memory))    \
   __CPROVER_frees(self->allocated_memory_sptr)                                                                         \
   __CPROVER_ensures(VWO_VALID(self) && __CPROVER_return_value == self)                                                 \
   __CPROVER_ensures(self->length == il->length && self->start == il->start)                                           \
